@@ -31,6 +31,8 @@ def shards(tier, seed):
     for kind in ("GaussianPDF", "GaussianDiagPDF"):
         for D in BOUNDS[tier]["D"]:
             out.append(dict(id="C05/marg/%s/D%d" % (kind, D), part="marg", kind=kind, D=D, cost=D * D, facts=dict(kind=kind, D=D)))
+        if tier == "quick":
+            out.append(dict(id="C05/marg/%s/D5.large" % kind, part="marg", kind=kind, D=5, large=True, cost=30, facts=dict(kind=kind, D=5)))
     for kind in ("GaussianPDF", "GaussianDiagPDF"):
         for D in (1, 2, 3):
             for Ds in range(1, D + 1):
@@ -54,7 +56,7 @@ def run_marg(shard, ctx):
     kind, D = shard["kind"], shard["D"]
     diag = "Diag" in kind
     vis = [0, 100, objs.HARD] if tier == "quick" else [0, 1, 2, 100, 101, objs.HARD]
-    for R in BOUNDS[tier]["R"]:
+    for R in (BOUNDS[tier]["R"] if not shard.get("large") else [5]):
         for vi in vis:
             tag = ("c05", kind, D, R)
             Sig = objs.spd_batch(D, R, vi, seed, tag, diag=diag)
